@@ -108,39 +108,46 @@ def audit_sources():
     return bad
 
 
-def property_theorems(pid):
-    """compile Properties/<pid>.v once more to capture its Print Assumptions output.
+def property_theorems(pid, extra_files=()):
+    """compile Properties/<pid>.v (and the extra property files of that property) once more to
+    capture the Print Assumptions output.
     Returns dict(theorems=[...], closed=n, axioms=[...], ok=bool, output=str)."""
-    path = os.path.join(COQ, "Properties", pid + ".v")
-    if not os.path.exists(path):
-        return {"theorems": [], "closed": 0, "axioms": [], "ok": False, "output": "missing " + path}
-    src = open(path).read()
-    src_nc = re.sub(r"\(\*.*?\*\)", "", src, flags=re.S)
-    theorems = re.findall(r"^\s*(?:Theorem|Corollary)\s+(\w+)", src_nc, re.M)
-    prints = re.findall(r"Print Assumptions\s+(\w+)", src_nc)
-    rc, out, err = sh(["coqc", "-Q", COQ, "PFDL", "-w", "-all", "-o", "/dev/null", path], cwd=COQ, timeout=600)
-    if rc != 0:
-        # -o /dev/null may be refused; fall back to a scratch copy
-        import tempfile
-        import shutil
+    import shutil
+    import tempfile
+    res = {"theorems": [], "closed": 0, "axioms": [], "ok": True, "output": "", "printed": []}
+    for name in (pid,) + tuple(extra_files):
+        path = os.path.join(COQ, "Properties", name + ".v")
+        if not os.path.exists(path):
+            res["ok"] = False
+            res["output"] += "missing " + path
+            continue
+        src = open(path).read()
+        src_nc = re.sub(r"\(\*.*?\*\)", "", src, flags=re.S)
+        theorems = re.findall(r"^\s*(?:Theorem|Corollary)\s+(\w+)", src_nc, re.M)
+        prints = re.findall(r"Print Assumptions\s+(\w+)", src_nc)
         d = tempfile.mkdtemp(prefix="pfdl_prop_")
         try:
-            shutil.copy(path, os.path.join(d, pid + ".v"))
-            rc, out, err = sh(["coqc", "-Q", COQ, "PFDL", "-w", "-all", os.path.join(d, pid + ".v")], cwd=d, timeout=600)
+            shutil.copy(path, os.path.join(d, name + ".v"))
+            rc, out, err = sh(["coqc", "-Q", COQ, "PFDL", "-w", "-all", os.path.join(d, name + ".v")], cwd=d, timeout=900)
         finally:
             shutil.rmtree(d, ignore_errors=True)
-    closed = out.count("Closed under the global context")
-    axioms = []
-    for m in re.finditer(r"Axioms:\n((?:.+\n?)+?)(?:\n|$)", out):
-        for line in m.group(1).split("\n"):
-            mm = re.match(r"^(\S+)\s*:", line)
-            if mm:
-                axioms.append(mm.group(1))
-    bad_axioms = [a for a in axioms if a not in ALLOWED_AXIOMS]
-    ok = (rc == 0 and len(theorems) > 0 and set(theorems) <= set(prints)
-          and closed + len(re.findall(r"Axioms:", out)) == len(prints) and not bad_axioms)
-    return {"theorems": theorems, "closed": closed, "axioms": axioms, "ok": ok,
-            "output": (out + err)[-3000:], "printed": prints}
+        closed = out.count("Closed under the global context")
+        axioms = []
+        for m in re.finditer(r"Axioms:\n((?:.+\n?)+?)(?:\n|$)", out):
+            for line in m.group(1).split("\n"):
+                mm = re.match(r"^(\S+)\s*:", line)
+                if mm:
+                    axioms.append(mm.group(1))
+        bad_axioms = [a for a in axioms if a not in ALLOWED_AXIOMS]
+        ok = (rc == 0 and len(theorems) > 0 and set(theorems) <= set(prints)
+              and closed + len(re.findall(r"Axioms:", out)) == len(prints) and not bad_axioms)
+        res["theorems"] += theorems
+        res["printed"] += prints
+        res["closed"] += closed
+        res["axioms"] += axioms
+        res["ok"] = res["ok"] and ok
+        res["output"] += (out + err)[-3000:]
+    return res
 
 
 # ---- JSON with Fractions and tuples --------------------------------------------
